@@ -186,6 +186,9 @@ def boundary_cases(rng, n, prof_kw=None):
             for s in cc["subs"]:
                 names.append(s["name"])
                 names.append(s["name"][:1])
+                for al, _ in s.get("aliases", []):
+                    names.append(al)
+                    names.append(al[:max(1, len(al) - 1)])
                 if s.get("short_flag"):
                     names.append(b"-" + s["short_flag"].encode())
                     names.append(b"-" + s["short_flag"].encode() + b"qz")
@@ -193,6 +196,21 @@ def boundary_cases(rng, n, prof_kw=None):
                     names.append(b"--" + s["long_flag"])
                 collect(s)
         collect(c)
+        # directed: `<path of subcommand names> help <name | alias | prefix of either> [more]` -- the help subcommand resolves
+        # its operand through the same lookups as dispatch (inference, aliases) and must never panic (seed2/C01-2)
+        def help_lines(cc, path):
+            for s in cc["subs"]:
+                spell = [s["name"], s["name"][:max(1, len(s["name"]) - 1)], s["name"][:1]]
+                for al, _ in s.get("aliases", []):
+                    spell += [al, al[:max(1, len(al) - 1)], al[:1]]
+                for sp in spell:
+                    yield path + [b"help", sp]
+                    yield path + [b"help", sp, rng.choice(gen_cmd.BOUNDARY)]
+                yield from help_lines(s, path + [s["name"]])
+        hl = list(help_lines(c, []))
+        rng.shuffle(hl)
+        for toks in hl[:6]:
+            out.append(gen_cmd.case_sx(c, toks if "no_binary_name" in c["settings"] else [b"prog"] + toks))
         for _ in range(4):
             k = rng.choice([0, 1, 1, 2, 2, 3, 4, 6])
             toks = [rng.choice(gen_cmd.BOUNDARY + names) if names else rng.choice(gen_cmd.BOUNDARY) for _ in range(k)]
